@@ -117,6 +117,18 @@ MUTATIONS = {
         new="        if self._is_animated and (frame or self._seek_position):\n"
             "            img.seek(self._seek_position)\n        if not size:",
     ),
+    "c03-kitty-lines-shared-buffer": dict(  # seeded/C03-w2: needs two overlapping kitty LINES renders
+        props=["C03"],
+        edits=[
+            dict(file="image/kitty.py",
+                 old="            with io.StringIO() as buffer, io.BytesIO(raw_image) as raw_image:\n",
+                 new="            buffer = _lines_buffer\n            buffer.seek(0)\n            buffer.truncate()\n\n"
+                     "            with io.BytesIO(raw_image) as raw_image:\n"),
+            dict(file="image/kitty.py",
+                 old="_stdout_write = sys.stdout.write\n",
+                 new="_stdout_write = sys.stdout.write\n_lines_buffer = io.StringIO()\n"),
+        ],
+    ),
     "c03-kitty-whole-at-render-size": dict(
         file="image/kitty.py", props=["C03"],
         old="self._get_minimal_render_size()\n            if render_method == WHOLE",
@@ -131,19 +143,20 @@ def apply(mid: str) -> Path:
     shutil.rmtree(root, ignore_errors=True)
     root.mkdir(parents=True)
     subprocess.run(["rsync", "-a", "/repo/src", str(root) + "/"], check=True)
-    f = root / "src" / "term_image" / m["file"]
-    text = f.read_text()
-    nth = m.get("nth")
-    if nth is None:
-        if text.count(m["old"]) != 1:
-            raise SystemExit(f"{mid}: pattern occurs {text.count(m['old'])} times in {m['file']}")
-        text = text.replace(m["old"], m["new"])
-    else:
-        pos = [x.start() for x in re.finditer(re.escape(m["old"]), text)]
-        if len(pos) <= nth:
-            raise SystemExit(f"{mid}: occurrence {nth} of the pattern not found in {m['file']}")
-        text = text[: pos[nth]] + m["new"] + text[pos[nth] + len(m["old"]):]
-    f.write_text(text)
+    for e in m.get("edits", [m]):
+        f = root / "src" / "term_image" / e["file"]
+        text = f.read_text()
+        nth = e.get("nth")
+        if nth is None:
+            if text.count(e["old"]) != 1:
+                raise SystemExit(f"{mid}: pattern occurs {text.count(e['old'])} times in {e['file']}")
+            text = text.replace(e["old"], e["new"])
+        else:
+            pos = [x.start() for x in re.finditer(re.escape(e["old"]), text)]
+            if len(pos) <= nth:
+                raise SystemExit(f"{mid}: occurrence {nth} of the pattern not found in {e['file']}")
+            text = text[: pos[nth]] + e["new"] + text[pos[nth] + len(e["old"]):]
+        f.write_text(text)
     return root
 
 
